@@ -70,12 +70,15 @@ def readOK (s : Store) (startTS : Nat) (key : Bytes) (value : Option Bytes) : Pr
 
 /-- async commit / one-phase commit (profile `full`, the store the async/1PC runs execute against): the commit
     timestamp bound chosen by the store lies above its max_ts — every read timestamp it has served — and above the start
-    and for-update timestamps; together with `read_stable` no async or 1PC commit lands under a served read -/
+    and for-update timestamps; together with `read_stable` no async or 1PC commit lands under a served read.
+    (`hfresh`: the request is not a retry that finds the transaction already committed — that path writes nothing and
+    only reports the old commit ts, `MvccFull.fprewrite_retry_idempotent`.) -/
 theorem async_commit_ts_above_served_reads (f f' : MvccFull.FStore) (r : PrewriteReq) (x : MvccFull.FPrewriteExtra)
-    (resp : MvccFull.FPrewriteResp) (h : MvccFull.fprewrite f r x = (f', resp)) :
+    (resp : MvccFull.FPrewriteResp) (hfresh : MvccFull.ownCommitTS f r = none)
+    (h : MvccFull.fprewrite f r x = (f', resp)) :
     (resp.minCommitTS ≠ 0 → f.maxTS < resp.minCommitTS ∧ r.startTS < resp.minCommitTS ∧ r.forUpdateTS < resp.minCommitTS ∧ r.minCommitTS ≤ resp.minCommitTS) ∧
     (resp.onePCCommitTS ≠ 0 → f.maxTS < resp.onePCCommitTS ∧ r.startTS < resp.onePCCommitTS ∧ r.forUpdateTS < resp.onePCCommitTS) :=
-  MvccFull.fprewrite_ts_above_reads f f' r x resp h
+  MvccFull.fprewrite_ts_above_reads f f' r x resp hfresh h
 
 theorem served_read_raises_max_ts (f : MvccFull.FStore) (ts : Nat) (h : ts ≠ maxU64) : ts ≤ (f.bump ts).maxTS :=
   MvccFull.bump_covers f ts h
